@@ -216,6 +216,35 @@ def width_leg(acc, srv, rng, n):
                 acc.violation("%s of %d gives %r" % (name, lo, r.get("v", r.get("e"))), {"kind": "fn", "f": "u_from_u128", "a": [str(lo)]})
 
 
+def swap_narrowing_leg(acc, srv, rng, n):
+    """256 -> 128-bit hand-back inside compute_swap: when the exact spread floor(a*y/x) - gross does not fit 128 bits the
+    call must abort; whatever is returned must be the exact value (no silent cap or truncation)."""
+    from ..core import dropped_groups
+    if "fn_formulas" in dropped_groups():
+        acc.count("fn_leg_skipped_adapter_built_without_fn_formulas")
+        return
+    cases = []
+    for _ in range(n):
+        x = rng.randrange(1, 1 << rng.choice([1, 4, 8, 12, 16, 20]))
+        y = rng.getrandbits(rng.choice([90, 100, 110, 120, 127])) | 1
+        a = rng.getrandbits(rng.choice([40, 60, 70, 80, 90])) | 1
+        if a * y * D >= U256 or x * y * D >= U256:
+            a = max(1, (U256 // (D * y)) >> rng.randrange(1, 8))
+        cases.append((x, y, a, rng.choice([0, 1, 3 * 10 ** 15, D])))
+    resps = srv.calls([("compute_swap", [str(x), str(y), str(a), to_limbs(c)]) for x, y, a, c in cases])
+    for (x, y, a, c), r in zip(cases, resps):
+        acc.ev()
+        fits = (a * y // x) - min(y, (y * a) // (x + a) + 1) < U128
+        acc.cls("swap_narrowing", "fits" if fits else "toobig", r["r"])
+        acc.count("swap_narrowing_cases")
+        if r["r"] == "ok":
+            n_, sp, cm = (int(v) for v in r["v"])
+            if n_ + cm + sp != (a * y) // x:
+                acc.violation("compute_swap(%d,%d,%d,c=%d) handed back spread %d, but return+commission+spread must be floor(a*y/x) = %d: "
+                              "a 256->128-bit narrowing lost the value instead of aborting" % (x, y, a, c, sp, (a * y) // x),
+                              {"kind": "fn", "f": "compute_swap", "a": [str(x), str(y), str(a), to_limbs(c)], "observed": r})
+
+
 def run_shard(acc, prop, tier, seed, shard, nshards, **kw):
     rng = sub_rng(seed, PROP, tier, shard)
     srv = Server(log=False)
@@ -236,6 +265,7 @@ def run_shard(acc, prop, tier, seed, shard, nshards, **kw):
         for i in range(0, len(rs), 1000):
             string_cases(acc, srv, rs[i:i + 1000], "random")
         width_leg(acc, srv, rng, 3000 if tier == "quick" else 100000)
+        swap_narrowing_leg(acc, srv, rng, 2000 if tier == "quick" else 60000)
         # non-string JSON must not decode
         for js in ("5", "1.5", "null", "[\"1\"]", "{\"a\":1}", "true"):
             for f in ("d_json_de", "u_json_de"):
